@@ -55,7 +55,51 @@ type c06eCase struct {
 	NoRead     bool `json:"no_read"`
 	DialDelay  int  `json:"dial_delay"`  // milliseconds Outbound.TCP takes to connect to the target
 	CloseDelay int  `json:"close_delay"` // milliseconds between the last Write and Close
+	// hooked requests: a RequestHook intercepts the request (server.go:282-299): the server answers "ok" BEFORE it
+	// dials, hands the stream to the hook, which may read the head of the client's payload (returned as putback and
+	// written to the target ahead of the relay), rewrite the address, or abort
+	Hook *c06eHookCase `json:"hook"`
 }
+
+type c06eHookCase struct {
+	Putback int    `json:"putback"` // bytes the hook reads off the stream and returns as putback (0: it reads nothing)
+	Rewrite string `json:"rewrite"` // non-empty: the hook replaces the request address with this one
+	Err     bool   `json:"err"`     // hook.TCP returns an error (the server closes the stream without dialing)
+}
+
+// c06eHook: a scripted server.RequestHook
+type c06eHook struct {
+	mu    sync.Mutex
+	h     c06eHookCase
+	calls int
+	read  []byte // what it took off the stream
+	seen  string // the address it was shown
+}
+
+func (k *c06eHook) Check(isUDP bool, reqAddr string) bool { return !isUDP && reqAddr != c06eProbeAddr }
+func (k *c06eHook) TCP(stream server.HyStream, reqAddr *string) ([]byte, error) {
+	var buf []byte
+	if k.h.Putback > 0 {
+		buf = make([]byte, k.h.Putback)
+		_ = stream.SetReadDeadline(time.Now().Add(6 * time.Second))
+		n, _ := io.ReadFull(stream, buf)
+		_ = stream.SetReadDeadline(time.Time{})
+		buf = buf[:n]
+	}
+	k.mu.Lock()
+	k.calls++
+	k.read = append([]byte(nil), buf...)
+	k.seen = *reqAddr
+	k.mu.Unlock()
+	if k.h.Rewrite != "" {
+		*reqAddr = k.h.Rewrite
+	}
+	if k.h.Err {
+		return nil, errors.New("hook says no")
+	}
+	return buf, nil
+}
+func (k *c06eHook) UDP(data []byte, reqAddr *string) error { return nil }
 
 const c06eProbeAddr = "probe.example:80"
 
@@ -162,6 +206,7 @@ type c06eOutbound struct {
 	target  *c06eTarget
 	dials   int
 	delay   time.Duration
+	addrs   []string // the addresses it was asked to dial (probes excluded)
 }
 
 func (o *c06eOutbound) TCP(reqAddr string) (net.Conn, error) {
@@ -177,6 +222,7 @@ func (o *c06eOutbound) TCP(reqAddr string) (net.Conn, error) {
 	o.mu.Lock()
 	defer o.mu.Unlock()
 	o.dials++
+	o.addrs = append(o.addrs, reqAddr)
 	if o.dialErr != "" {
 		return nil, errors.New(o.dialErr)
 	}
@@ -232,6 +278,11 @@ func c06eRun(c c06eCase, res map[string]any) {
 	if c.Logger {
 		cfg.TrafficLogger = logger
 	}
+	var hook *c06eHook
+	if c.Hook != nil {
+		hook = &c06eHook{h: *c.Hook}
+		cfg.RequestHook = hook
+	}
 	s, err := server.NewServer(cfg)
 	if err != nil {
 		skip("server", err)
@@ -271,6 +322,10 @@ func c06eRun(c c06eCase, res map[string]any) {
 			return
 		}
 		c06eNoRead(c, cl, conn, ob, target, logger, up, res, skip, fail)
+		return
+	}
+	if hook != nil && (c.DialErr != "" || c.Hook.Err) {
+		c06eHookedFailure(c, conn, err, hook, ob, target, logger, up, res, skip, fail)
 		return
 	}
 	if c.DialErr != "" {
@@ -459,9 +514,35 @@ func c06eRun(c c06eCase, res map[string]any) {
 			return
 		}
 	}
+	pb := 0
+	if hook != nil {
+		// the hook saw the address the client asked for, the server dialed the address the hook left
+		hook.mu.Lock()
+		hcalls, hseen := hook.calls, hook.seen
+		pb = len(hook.read)
+		hook.mu.Unlock()
+		want := "target.example:80"
+		if c.Hook.Rewrite != "" {
+			want = c.Hook.Rewrite
+		}
+		ob.mu.Lock()
+		addrs := append([]string(nil), ob.addrs...)
+		ob.mu.Unlock()
+		res["hook_read"] = pb
+		if hcalls != 1 || hseen != "target.example:80" {
+			fail("the request hook was called %d times, last with address %q, for one request for target.example:#", hcalls, hseen)
+			return
+		}
+		if len(addrs) == 0 || addrs[0] != want {
+			fail("hooked request: the server dialed %q, the hook left the address %q", addrs, want)
+			return
+		}
+	}
 	if c.Logger {
-		if ltx != uint64(len(got)) {
-			fail("logger approved tx=%d, target received %d", ltx, len(got))
+		// (bytes a hook took off the stream and put back are written to the target ahead of the relay, not through the logger;
+		// the accounting clause of the property is about connections no hook intercepts)
+		if ltx > uint64(len(got)) || ltx+uint64(pb) < uint64(len(got)) {
+			fail("logger approved tx=%d, target received %d (of which %d put back by the request hook)", ltx, len(got), pb)
 			return
 		}
 		// what the relay wrote to the stream reaches the client unless the connection was killed by the veto
@@ -511,6 +592,101 @@ func c06eRun(c c06eCase, res map[string]any) {
 	}
 	res["ok"] = true
 	res["why"] = ""
+}
+
+// c06eHookedFailure: a request a RequestHook intercepted, and then either the hook aborted or the dial of the target
+// failed.  The server answered "ok" before it dialed (server.go:291), so TCP() has succeeded with fast open on and off
+// and for the client everything that follows on the stream is payload.  No target was ever connected: the application
+// must not read a single byte, its Reads end with an error or EOF (a DialError, should one arrive, must carry the
+// server's message), nothing reaches a target or the logger.
+func c06eHookedFailure(c c06eCase, conn net.Conn, terr error, hook *c06eHook, ob *c06eOutbound, target *c06eTarget, logger *c06eLogger,
+	up []byte, res map[string]any, skip func(string, error), fail func(string, ...any)) {
+	if terr != nil {
+		var de coreErrs.DialError
+		if errors.As(terr, &de) {
+			if c.DialErr == "" || de.Message != c.DialErr {
+				fail("hooked request: TCP() returned DialError %q, the dial error of the server was %q", de.Message, c.DialErr)
+				return
+			}
+			res["ok"], res["why"] = true, ""
+			return
+		}
+		skip("TCP() of a hooked request", terr)
+		return
+	}
+	// the application sends (the hook may be waiting for the head of the payload); the server closes the stream at some
+	// point, after which writes fail: that is not a verdict
+	wdone := make(chan struct{})
+	go func() {
+		defer close(wdone)
+		for off := 0; off < len(up); off += c.UpChunk {
+			end := min(off+c.UpChunk, len(up))
+			if _, err := conn.Write(up[off:end]); err != nil {
+				return
+			}
+		}
+	}()
+	var recv bytes.Buffer
+	conn.SetReadDeadline(time.Now().Add(20 * time.Second))
+	buf := make([]byte, 4096)
+	var rerr error
+	for recv.Len() < 1<<20 {
+		n, err := conn.Read(buf)
+		recv.Write(buf[:n])
+		if err != nil {
+			rerr = err
+			break
+		}
+	}
+	conn.Close()
+	<-wdone
+	res["recv"] = recv.Len()
+	res["rerr"] = fmt.Sprint(rerr)
+	what := "the dial of the target failed"
+	if c.Hook.Err {
+		what = "the request hook aborted the request"
+	}
+	if recv.Len() > 0 {
+		fail("hooked request, %s (no target was ever connected), fast open %v: the application read %d payload bytes", what, c.FastOpen, recv.Len())
+		res["detail"] = fmt.Sprintf("%s, starting with %q", res["detail"], recv.Bytes()[:min(recv.Len(), 40)])
+		return
+	}
+	var de coreErrs.DialError
+	if errors.As(rerr, &de) && (c.DialErr == "" || de.Message != c.DialErr) {
+		fail("hooked request, %s: Read returned DialError %q, the dial error of the server was %q", what, de.Message, c.DialErr)
+		return
+	}
+	if rerr != nil && isTimeout(rerr) {
+		skip("read after a hooked failure", rerr)
+		return
+	}
+	time.Sleep(100 * time.Millisecond)
+	logger.mu.Lock()
+	calls := logger.calls
+	logger.mu.Unlock()
+	target.mu.Lock()
+	tgot := target.got.Len()
+	target.mu.Unlock()
+	if calls != 0 || tgot != 0 {
+		fail("hooked request, %s, but %d LogTraffic calls and %d bytes relayed to a target", what, calls, tgot)
+		return
+	}
+	ob.mu.Lock()
+	addrs := append([]string(nil), ob.addrs...)
+	ob.mu.Unlock()
+	want := "target.example:80"
+	if c.Hook.Rewrite != "" {
+		want = c.Hook.Rewrite
+	}
+	if c.Hook.Err && len(addrs) != 0 {
+		fail("the request hook aborted the request, yet the server dialed %q", addrs)
+		return
+	}
+	if !c.Hook.Err && (len(addrs) != 1 || addrs[0] != want) {
+		fail("hooked request: the server dialed %q, the hook left the address %q", addrs, want)
+		return
+	}
+	res["ok"], res["why"] = true, ""
 }
 
 // c06eNoRead: the one-way upload.  The sender opens the connection, writes its whole payload and closes, without
